@@ -355,7 +355,7 @@ where
 /// random operands over 4..8 variables, threads 1..8, every split depth, cache 1..4096 entries
 pub fn random(ctx: &mut Ctx) {
     let mut rng = ctx.rng(0xC02);
-    let cases = ctx.by_tier(30, 400);
+    let cases = ctx.by_tier(30, 4000);
     random_kind::<Bdd>(ctx, &mut rng, cases);
     random_kind::<Bcdd>(ctx, &mut rng, cases);
     random_kind::<Zbdd>(ctx, &mut rng, cases);
